@@ -76,6 +76,16 @@ void *memset(void *, int, unsigned long);
     if (idx + 1 < n) v->data[idx] = v->data[idx + 1]; \
     if (idx + 2 < n) v->data[idx + 1] = v->data[idx + 2]; \
     if (idx + 3 < n) v->data[idx + 2] = v->data[idx + 3];
+#elif defined(SHIM_VEC_ERASE_EXACT8)
+#define SHIM_VEC_ERASE_MOVE(T) \
+    SHIM_ASSERT(n <= 8, "shim.vector.erase.exact_model_needs_at_most_8_elements"); \
+    if (idx + 1 < n) v->data[idx] = v->data[idx + 1]; \
+    if (idx + 2 < n) v->data[idx + 1] = v->data[idx + 2]; \
+    if (idx + 3 < n) v->data[idx + 2] = v->data[idx + 3]; \
+    if (idx + 4 < n) v->data[idx + 3] = v->data[idx + 4]; \
+    if (idx + 5 < n) v->data[idx + 4] = v->data[idx + 5]; \
+    if (idx + 6 < n) v->data[idx + 5] = v->data[idx + 6]; \
+    if (idx + 7 < n) v->data[idx + 6] = v->data[idx + 7];
 #else
 #define SHIM_VEC_ERASE_MOVE(T) \
     _Bool pin = g_vec_idx >= idx && g_vec_idx + 1 < n; T keep; if (pin) keep = v->data[g_vec_idx + 1]; \
